@@ -323,6 +323,52 @@ fn eval(a: &[&str]) -> String {
                 _ => postcard::from_bytes::<Relaxed>(&b).map(|v| format!("OK {}/{}", show_i(v.numerator()), show_u(v.denominator()))).unwrap_or("ERR".into()),
             }
         }
+        // ---------------- a self-describing binary format (CBOR): structs travel as maps, so the
+        // decoders' map visitors run; `order` lists the entries of the re-encoded map (indices into
+        // the original one): a permutation must decode to the same value, anything else is an error
+        "cbor" => {
+            fn go<T: serde::Serialize + serde::de::DeserializeOwned + PartialEq>(x: &T, same: impl Fn(&T, &T) -> bool, order: &str) -> String {
+                let mut bytes = Vec::new();
+                if ciborium::ser::into_writer(x, &mut bytes).is_err() {
+                    return "ENCODE-ERR".into();
+                }
+                let rt = match ciborium::de::from_reader::<T, _>(&bytes[..]) {
+                    Ok(y) => format!("RT={}", same(x, &y)),
+                    Err(_) => "RT=ERR".into(),
+                };
+                let val: ciborium::value::Value = match ciborium::de::from_reader(&bytes[..]) {
+                    Ok(v) => v,
+                    Err(_) => return format!("{rt} VALUE-ERR"),
+                };
+                let perm = match val {
+                    ciborium::value::Value::Map(entries) => {
+                        let mut out = Vec::new();
+                        for ch in order.chars() {
+                            let i = ch.to_digit(10).unwrap_or(0) as usize;
+                            if i < entries.len() {
+                                out.push(entries[i].clone());
+                            }
+                        }
+                        let mut b2 = Vec::new();
+                        let _ = ciborium::ser::into_writer(&ciborium::value::Value::Map(out), &mut b2);
+                        match ciborium::de::from_reader::<T, _>(&b2[..]) {
+                            Ok(y) => format!("MAP{} PERM={}", entries.len(), if same(x, &y) { "OK-equal" } else { "OK-differs" }),
+                            Err(_) => format!("MAP{} PERM=ERR", entries.len()),
+                        }
+                    }
+                    _ => "NOMAP".into(),
+                };
+                format!("{rt} {perm}")
+            }
+            match a[1] {
+                "u" => go(&uint(a[3]), |x, y| x == y, a[2]),
+                "i" => go(&int(a[3]), |x, y| x == y, a[2]),
+                "d" => go(&dec(a[3], a[4], a[5]), |x, y| x.repr() == y.repr() && x.precision() == y.precision(), a[2]),
+                "b" => go(&bin(a[3], a[4], a[5]), |x, y| x.repr() == y.repr() && x.precision() == y.precision(), a[2]),
+                "r" => go(&rat(a[3], a[4]), |x, y| x == y, a[2]),
+                _ => go(&Relaxed::from_parts(int(a[3]), uint(a[4])), |x, y| x.numerator() == y.numerator() && x.denominator() == y.denominator(), a[2]),
+            }
+        }
         // ---------------- log2 bounds of primitives (EstimatedLog2 in dashu-base)
         "plog2" => {
             macro_rules! one {
